@@ -32,7 +32,7 @@ type fakeEstimator struct {
 }
 
 func (f *fakeEstimator) EstimateFeePerKW(uint32) (btcutil.Amount, error) { return f.v, f.err }
-func (f *fakeEstimator) Start() error                                   { return nil }
+func (f *fakeEstimator) Start() error                                    { return nil }
 
 var versionAlphabet = []string{"0", "1", "2", "9", "29", "30", "28", ".", ".", "/", "Satoshi:", "v", "rc", "-", " ", "(", ")", "x", "253", "00", "92233720368547758079", "9223372036854775807", "9223372036854775808", "\xc3\xa9", "\xd9\xa1", "\n"}
 
